@@ -166,3 +166,37 @@ func anyString(v any, pred func(string) bool) bool {
 	}
 	return false
 }
+
+func getAt(v any, p []any) any {
+	for _, s := range p {
+		switch k := s.(type) {
+		case string:
+			v = v.(map[string]any)[k]
+		case int:
+			v = v.([]any)[k]
+		}
+	}
+	return v
+}
+
+// setAt returns a copy of root with the node at p replaced.
+func setAt(root any, p []any, nv any) any {
+	if len(p) == 0 {
+		return nv
+	}
+	switch k := p[0].(type) {
+	case string:
+		m := map[string]any{}
+		for kk, vv := range root.(map[string]any) {
+			m[kk] = vv
+		}
+		m[k] = setAt(m[k], p[1:], nv)
+		return m
+	case int:
+		l := append([]any{}, root.([]any)...)
+		l[k] = setAt(l[k], p[1:], nv)
+		return l
+	}
+	return root
+}
+
